@@ -156,6 +156,165 @@ func attestQE(args []string) int {
 			n++
 		}
 	}
-	fmt.Fprintf(os.Stderr, "attest-qe: %d cases\n", n)
+	// second part: the platform's TCB components against the TCB levels of the signed TCB info.  The genuine QE report, and
+	// component vectors around the levels (every SGX component, the PCE SVN, every TDX component lowered to zero and to one below
+	// the newest level's requirement; TDX module version 0 and 1 with module SVNs 0..3), through the same TCBBundle.Verify.
+	n2, err2 := attestTCBLevels(emit)
+	if err2 != nil {
+		fmt.Fprintln(os.Stderr, "attest-qe: tcb levels:", err2)
+		return 2
+	}
+	fmt.Fprintf(os.Stderr, "attest-qe: %d QE identity cases, %d TCB level cases\n", n, n2)
 	return 0
+}
+
+// tcbTruth is Intel's TCB level selection (first level all of whose components the platform reaches; for TDX module version 0 all
+// sixteen TDX components count, from version 1 on components 0 and 1 are judged by the module identity) transcribed from the
+// specification text; acceptable are UpToDate and SWHardeningNeeded with an UpToDate TDX module.
+func tcbTruth(ti *attTCBInfo, sgx [16]int32, pce uint16, tdx *[16]byte) bool {
+	status := ""
+	for _, lv := range ti.Levels {
+		ok := len(lv.TCB.SGX) == 16
+		for i := 0; ok && i < 16; i++ {
+			ok = int(sgx[i]) >= lv.TCB.SGX[i].SVN
+		}
+		ok = ok && int(pce) >= int(lv.TCB.PCESVN)
+		if ok && tdx != nil && len(lv.TCB.TDX) == 16 {
+			from := 0
+			if tdx[1] != 0 {
+				from = 2
+			}
+			for i := from; ok && i < 16; i++ {
+				ok = int(tdx[i]) >= lv.TCB.TDX[i].SVN
+			}
+		}
+		if ok {
+			status = lv.Status
+			break
+		}
+	}
+	if status != "UpToDate" && status != "SWHardeningNeeded" {
+		return false
+	}
+	if ti.ID == "TDX" && tdx != nil && tdx[1] >= 1 {
+		want := fmt.Sprintf("TDX_%02d", tdx[1])
+		for _, m := range ti.Modules {
+			if m.ID != want {
+				continue
+			}
+			for _, lv := range m.Levels {
+				if lv.TCB.ISVSVN <= int(tdx[0]) {
+					return lv.Status == "UpToDate"
+				}
+			}
+			return false
+		}
+		return false
+	}
+	return true
+}
+
+func attestTCBLevels(emit func(map[string]any)) (int, error) {
+	env, err := attLoad()
+	if err != nil {
+		return 0, err
+	}
+	td := attTestdata()
+	rd := func(f string) []byte {
+		b, err := os.ReadFile(filepath.Join(td, f))
+		if err != nil {
+			panic(err)
+		}
+		return b
+	}
+	const hdr, sgxRep, tdRep = 48, 384, 584
+	n := 0
+	for _, v := range []struct {
+		name, quote, tcb, qe, coll string
+		tee                        pcs.TeeType
+		now                        time.Time
+		policy                     *pcs.QuotePolicy
+		off                        int
+	}{
+		{"sgx", "quote_v3_ecdsa_p256_pck_chain.bin", "tcb_info_v3_fmspc_00606A000000.json", "qe_identity_v2.json", "sgx", pcs.TeeTypeSGX, time.Unix(1671497404, 0),
+			&pcs.QuotePolicy{TCBValidityPeriod: 30, MinTCBEvaluationDataNumber: 12}, hdr + sgxRep + 4 + 64 + 64},
+		{"tdx", "quote_v4_tdx_ecdsa_p256.bin", "tcb_info_v3_tdx_fmspc_C0806F000000.json", "qe_identity_v2_tdx2.json", "tdx", pcs.TeeTypeTDX, time.Unix(1725263032, 0),
+			&pcs.QuotePolicy{TCBValidityPeriod: 30, MinTCBEvaluationDataNumber: 12, TDX: &pcs.TdxQuotePolicy{}}, hdr + tdRep + 4 + 64 + 64 + 6},
+	} {
+		raw := rd(v.quote)
+		var q pcs.Quote
+		if err := q.UnmarshalBinary(raw); err != nil {
+			return n, err
+		}
+		var bnd pcs.TCBBundle
+		if json.Unmarshal(rd(v.tcb), &bnd.TCBInfo) != nil || json.Unmarshal(rd(v.qe), &bnd.QEIdentity) != nil {
+			return n, fmt.Errorf("collateral")
+		}
+		bnd.Certificates = rd("tcb_info_v3_fmspc_00606A000000_certs.pem")
+		sig, ok := q.Signature().(*pcs.QuoteSignatureECDSA_P256)
+		if !ok {
+			return n, fmt.Errorf("signature type")
+		}
+		pck, err := sig.VerifyPCK(v.now)
+		if err != nil {
+			return n, err
+		}
+		var qeRep pcs.SgxReport
+		if err := qeRep.UnmarshalBinary(raw[v.off : v.off+sgxRep]); err != nil {
+			return n, err
+		}
+		ti := &env.colls[v.coll].tcb
+		var tdx0 *[16]byte
+		if v.tee == pcs.TeeTypeTDX {
+			var s [16]byte
+			copy(s[:], raw[hdr:hdr+16])
+			tdx0 = &s
+		}
+		try := func(variant string, sgx [16]int32, pce uint16, tdx *[16]byte) {
+			var accepted bool
+			perr := guard(func() {
+				accepted = bnd.Verify(v.tee, v.now, v.policy, pck.FMSPC, sgx, tdx, pce, &qeRep) == nil
+			})
+			emit(map[string]any{"ev": "tcb", "vector": v.name, "variant": variant, "truth": tcbTruth(ti, sgx, pce, tdx), "accepted": accepted, "panic": perr != nil})
+			n++
+		}
+		emit(map[string]any{"ev": "begin", "vector": v.name + "/tcb"})
+		try("genuine", pck.TCBCompSVN, pck.PCESVN, tdx0)
+		newest := ti.Levels[0]
+		for i := 0; i < 16; i++ {
+			for _, val := range []int32{0, int32(newest.TCB.SGX[i].SVN) - 1, int32(newest.TCB.SGX[i].SVN)} {
+				if val < 0 {
+					continue
+				}
+				c := pck.TCBCompSVN
+				c[i] = val
+				try(fmt.Sprintf("sgx[%d]=%d", i, val), c, pck.PCESVN, tdx0)
+			}
+		}
+		for _, val := range []int{0, int(newest.TCB.PCESVN) - 1, int(newest.TCB.PCESVN)} {
+			if val >= 0 {
+				try(fmt.Sprintf("pcesvn=%d", val), pck.TCBCompSVN, uint16(val), tdx0)
+			}
+		}
+		if tdx0 != nil && len(newest.TCB.TDX) == 16 {
+			for i := 2; i < 16; i++ {
+				for _, val := range []int{0, newest.TCB.TDX[i].SVN - 1, newest.TCB.TDX[i].SVN} {
+					if val < 0 {
+						continue
+					}
+					c := *tdx0
+					c[i] = byte(val)
+					try(fmt.Sprintf("tdx[%d]=%d", i, val), pck.TCBCompSVN, pck.PCESVN, &c)
+				}
+			}
+			for _, ver := range []byte{0, 1, 2} {
+				for svn := 0; svn <= newest.TCB.TDX[0].SVN+1; svn++ {
+					c := *tdx0
+					c[1], c[0] = ver, byte(svn)
+					try(fmt.Sprintf("tdx module v%d svn %d", ver, svn), pck.TCBCompSVN, pck.PCESVN, &c)
+				}
+			}
+		}
+	}
+	return n, nil
 }
